@@ -329,6 +329,20 @@ func cmdLex(args []string) error {
 		}
 		g.meta("case", base, joinParts(cased, func(int) string { return " " }), sameKinds)
 	}
+	// the time-reading states after BEFORE / AFTER / BETWEEN and after a HAVING comparison: every arrangement of a
+	// few times, commas, blanks and terminators (the exhaustive part cannot spell the keywords)
+	{
+		tm := "2006-01-02T15:04:05Z"
+		tails := []string{"", ";", " ;", " limit \"1\"^^type:int64;", ")", " )"}
+		bodies := []string{"1", tm, "1,", "1,2", tm + "," + tm, tm + ", " + tm, "1,,", "1,2,3", tm + ", " + tm + ", " + tm, ",", ",1", "1 ,2", "1, ,2", "1,2,", "x", "1x,2y"}
+		for _, kw := range []string{"before", "after", "between", "BETWEEN", "having ?x <", "having ?x = ", "(?x >"} {
+			for _, b := range bodies {
+				for _, tl := range tails {
+					g.one("select ?s from ?g where {?s ?p ?o} "+kw+" "+b+tl, caps[r.intn(len(caps))])
+				}
+			}
+		}
+	}
 	// literal type names in any case
 	for _, ty := range []string{"bool", "int64", "float64", "text", "blob"} {
 		a := `"1"^^type:` + ty
